@@ -279,6 +279,44 @@ fn files(out: &mut Out, rng: &mut Rng, thorough: bool, only: Option<&str>) {
                     .raw("r", &outcome_json(&o)).meas(o.a, &o.p),
             );
         }
+        // a file whose metadata reports size 0 but which delivers bytes (procfs)
+        let proc_path = std::path::Path::new("/proc/filesystems");
+        if let (Ok(d1), Ok(d2)) = (std::fs::read(proc_path), std::fs::read(proc_path)) {
+            if d1 == d2 && !d1.is_empty() && d1.len() < 20_000 {
+                let o = v.hash_file(proc_path);
+                out.emit(Ev::new("file_data").str("v", v.name()).bytes("data", &d1).raw("r", &outcome_json(&o)).meas(o.a, &o.p));
+            }
+        }
+        // a FIFO (size 0 in metadata, short reads) carrying more than one buffer of periodic content
+        let fifo = std::path::PathBuf::from(format!("{}/fifo-{}-{}", dir, std::process::id(), v.name()));
+        let _ = std::fs::remove_file(&fifo);
+        if std::process::Command::new("mkfifo").arg(&fifo).status().map(|s| s.success()).unwrap_or(false) {
+            let pat = rng.bytes(59);
+            let n: usize = if thorough { 2 * MIB + 11 } else { MIB + 5 };
+            let (p2, f2) = (pat.clone(), fifo.clone());
+            let writer = std::thread::spawn(move || {
+                use std::io::Write;
+                if let Ok(mut w) = std::fs::OpenOptions::new().write(true).open(&f2) {
+                    let data: Vec<u8> = (0..n).map(|i| p2[i % 59]).collect();
+                    for chunk in data.chunks(70_001) {
+                        if w.write_all(chunk).is_err() {
+                            break;
+                        }
+                    }
+                }
+            });
+            let o = v.hash_file(&fifo);
+            // Unblock the writer whatever the library did: opening a FIFO read+write never blocks;
+            // once it is closed again a writer still blocked in open() proceeds and then fails with
+            // EPIPE, and a writer that already finished is unaffected.
+            drop(std::fs::OpenOptions::new().read(true).write(true).open(&fifo));
+            let _ = writer.join();
+            let _ = std::fs::remove_file(&fifo);
+            out.emit(
+                Ev::new("file").str("v", v.name()).bytes("pat", &pat).num("size", n as i64)
+                    .raw("r", &outcome_json(&o)).meas(o.a, &o.p),
+            );
+        }
         let missing = std::path::PathBuf::from(format!("{}/does-not-exist-{}", dir, std::process::id()));
         let o = v.hash_file(&missing);
         out.emit(Ev::new("file_err").str("v", v.name()).str("why", "missing").raw("r", &outcome_json(&o)).meas(o.a, &o.p));
